@@ -173,19 +173,19 @@ Definition last_plain_fib (r : list elem) : bool :=
   match last r dflt with Fib f => negb (f_raman f) | _ => false end.
 Definition raman_gain (rgain : string -> Q) (r : list elem) : Q :=
   qsum (map (fun e => match e with Fib f => if f_raman f then rgain (f_name f) else 0%Q | _ => 0%Q end) r).
-(* span_loss(prev_node): cached on a plain last fibre, recomputed (padded losses minus Raman gains) otherwise;
+(* span_loss(prev_node): cached on a plain last fibre, recomputed otherwise (padded losses minus the Raman gains the
+   walk cached when it crossed the span's Raman fibres at the span input power: rgain, an input);
    r: the span before padding, r': after padding *)
 Definition loss_as_prev (c : cfg) (rgain : string -> Q) (r r' : list elem) : Q :=
   if last_plain_fib r then run_dsl c r else (run_loss r' - raman_gain rgain r')%Q.
 (* span_loss(next_node) inside target_power: next_node is the first element of the span; the design_span_loss cache
-   is hit only when the span is that single plain fibre.  Otherwise losses minus Raman gains: the gains cached by
-   add_fiber_padding when the span ends with a plain fibre, else this is the first estimate for the span's Raman
-   fibres (made at the reference power and returned rounded: c_rg; gnpy fix 36fd5b85 - before it: TypeError, F15) *)
-Definition loss_as_next (c : cfg) (rgain : string -> Q) (r r' : list elem) : res Q :=
+   is hit only when the span is that single plain fibre.  Otherwise losses minus Raman gains, and the span's Raman
+   fibres have not been visited by the walk yet, so nothing is cached for them: they are estimated without span input
+   power (c_rg; an estimate made that way is not cached - gnpy fix d3e2700d; before it: finding F23) *)
+Definition loss_as_next (c : cfg) (r r' : list elem) : res Q :=
   match r with
   | [Fib f] => if f_raman f then Ok (run_loss r' - raman_first (c_rg c) r')%Q else Ok (run_dsl c r)
-  | _ => if last_plain_fib r then Ok (run_loss r' - raman_gain rgain r')%Q
-         else Ok (run_loss r' - raman_first (c_rg c) r')%Q
+  | _ => Ok (run_loss r' - raman_first (c_rg c) r')%Q
   end.
 Definition is_amp_run (r : list elem) : bool := match r with [Amp _] => true | _ => false end.
 (* walk over the spans of a designed line: prev = the span before the current group (None: ROADM / amplifier) *)
@@ -203,7 +203,7 @@ Fixpoint amp_items (c : cfg) (rgain : string -> Q) (opsf : string -> ain) (ptot 
                       | None =>
                           match t with
                           | [] => if dst_roadm then Ok NRoadm else Err "AttributeError:target_power of a Transceiver"
-                          | (n, n') :: _ => if is_amp_run n then Ok (NLoss 0) else let* l := loss_as_next c rgain n n' in Ok (NLoss l)
+                          | (n, n') :: _ => if is_amp_run n then Ok (NLoss 0) else let* l := loss_as_next c n n' in Ok (NLoss l)
                           end
                       end) in
           let* rest := amp_items c rgain opsf ptot dst_roadm None t in
